@@ -32,7 +32,8 @@ def run(chk):
     keys, ndistinct = mx.collect_universe(chk, limit=3000 if chk.tier == "quick" else 30000)
     # value-first containment atoms ("win" in sys_platform): alone and inside compounds over other variables (no same-variable partner:
     # their merging is the known C03/C13 finding); their text must keep the direction of the containment
-    vf = [("ME", "sys_platform", "in", "a", True), ("ME", "sys_platform", "not in", "b", True), ("ME", "os_name", "in", "ab", True)]
+    # (values chosen so that no non-reversed atom of the vocabulary is an equal-keyed twin: twins would meet in the library's caches)
+    vf = [("ME", "sys_platform", "in", "a", True), ("ME", "sys_platform", "not in", "b", True), ("ME", "sys_platform", "in", "win", True)]
     others = [("ME", "python_version", ">=", "3.8", False), ("ME", "extra", "==", "e1", False)]
     keys = list(keys) + vf + [(k, a, b) for k in ("MultiMarker", "MarkerUnion") for a in vf[:2] for b in others]
     u = mx.phase_u(chk, keys, "c07")
